@@ -684,7 +684,10 @@ class NumpyShim(types.ModuleType):
                 return self._np.array(x, dtype=dtype)
             except Exception:
                 pass
-        return objarray(x)
+        r = objarray(x)
+        if r is x:
+            r = x.copy()        # numpy.array copies its argument
+        return r
 
     def asarray(self, x, dtype=None, order=None, **kw):
         if isinstance(x, self._np.ndarray):
